@@ -119,3 +119,16 @@ Proof.
   unfold integrate_cum, along_axis. fold ln.
   exact (cum_line_nth QcOps QcLaws (qc h) ln (nth ax i 0%nat) Hj).
 Qed.
+
+(* transfer: every entry of the OBSERVED directional integral is the sum along that axis times the
+   cell length, at the index with that axis removed *)
+Theorem accepted_directional sh nvdim ax h vals obs i :
+  check_C06 (CIntDir sh nvdim ax h vals obs) = true ->
+  inb (remove_nth ax sh ++ [nvdim]) i = true ->
+  nth (ravel (remove_nth ax sh ++ [nvdim]) i) (qcl obs) 0%Qc
+  = (fsum QcOps (map (fun j => arr sh nvdim vals (insert_nth ax j i))
+                     (iota 0 (nth ax (sh ++ [nvdim]) 0%nat))) * qc h)%Qc.
+Proof.
+  intros H Hi. apply check_int_dir_sound in H. destruct H as [_ ->].
+  rewrite nth_to_list by exact Hi. reflexivity.
+Qed.
